@@ -121,23 +121,23 @@ Proof.
 Qed.
 
 (** the step after the slot read: cache stores only; B stays or (declined / peeked) drops by one *)
-Lemma T_holder_slot M sz o ob om md b hm hm' np P R h' ws P' R' :
-  TCore M sz o ob om (TSlot md b) [] hm np P R ->
+Lemma T_holder_slot M sz o ob om h hm hm' np P R h' ws P' R' :
+  TCore M sz o ob om h [] hm np P R -> holds_t h = true -> hc h = false ->
   holds_t h' = true -> Forall cachew ws ->
-  Core (apply_wrs (Lmem M ob [] o (TSlot md b)) ws) sz o h' P' R' ->
+  Core (apply_wrs (Lmem M ob [] o h) ws) sz o h' P' R' ->
   hshape M h' ws -> (forall m x, h' <> TReadTop m x) ->
   TCore M sz o ob om h' ws hm' np P' R'.
 Proof.
-  intros T Hh' Fc C S N.
-  destruct (TCore_thief_holds _ _ _ _ _ _ _ _ _ _ _ T eq_refl) as (Ho & -> & L1 & Fo).
+  intros T Hh Hch Hh' Fc C S N.
+  destruct (TCore_thief_holds _ _ _ _ _ _ _ _ _ _ _ T Hh) as (Ho & -> & L1 & Fo).
   tc_open T.
   assert (E : Lq M ob ws = apply_wrs (Lq M ob []) ws) by (apply (Lq_holder_apps M ob [] ws); auto).
   destruct (cache_fields ws Fc (Lq M ob [])) as [Et Eb].
   assert (K : lkof o h' = 1) by (unfold lkof; rewrite Ho, Hh'; reflexivity).
   assert (Hc : 0 <= b2z (hc h')) by (destruct (hc h'); cbn; lia).
-  constructor; unfold LT, LB in *; rewrite ?E, ?Et, ?Eb; cbn [hc b2z] in *; auto.
+  constructor; unfold LT, LB in *; rewrite ?E, ?Et, ?Eb; rewrite ?Hch in *; cbn [b2z] in *; auto.
   - eapply Core_to_Lmem; [| rewrite K; auto |exact C]. rewrite E. apply meq_apply_wrs. apply Lmem_meq.
-  - unfold lkof in *. rewrite Ho, Hh' in *. cbn [holds_t] in TL. exact TL.
+  - unfold lkof in *. rewrite Ho, Hh' in *. rewrite Hh in TL. exact TL.
   - intros m x Hx. exfalso. eapply N; eauto.
   - intros _. specialize (TBASE Ho). lia.
   - intros _. specialize (TLIVE Ho). eapply Forall_impl; [|exact TLIVE]. cbn beta. intros; lia.
@@ -231,12 +231,30 @@ Proof.
       change (wseq (Lmem M ob [] o (TSlot m b))) with (wseq (Lq M ob [])). rewrite Ep, Ls. exact E. }
     pose proof (thief_core_step _ _ _ _ _ _ _ _ _ TC EL) as C'.
     left. cbn [app].
-    destruct m as [|[|]|]; inversion E; subst; clear E; (split; [reflexivity|]);
-      (eapply T_holder_slot; [exact T| | |exact C'| |]; auto; try reflexivity; try (intros; discriminate));
+    destruct m as [|d|]; inversion E; subst; clear E; (split; [reflexivity|]).
+    + eapply T_holder_slot; [exact T| | | | |exact C'| |]; auto; try reflexivity; try (intros; discriminate).
+      cbn [hshape]. exists [], []. repeat split; auto.
+    + eapply T_holder_pure; [exact T| | | | | |]; auto; try reflexivity; try (intros; discriminate).
+    + eapply T_holder_slot; [exact T| | | | |exact C'| |]; auto; try reflexivity; try (intros; discriminate).
+      * repeat constructor.
+      * cbn [hshape]. repeat constructor.
+  - (* TDecide *)
+    subst hb. cbn [view apply_wrs fold_left] in *. destruct Tv as [Tv Tb].
+    change (base (Lmem M ob [] o (TDecide d b))) with (base (Lq M ob [])) in Tv.
+    pose proof (tc_live _ _ _ _ _ _ _ _ _ _ _ T Ho) as LV. unfold LB in LV. cbn [hc b2z] in LV.
+    assert (Ep : znth (ptr (Lq M ob [])) b = znth (ptr M) b).
+    { rewrite (hview_ptr M ob [] b); auto. eapply Forall_impl; [|exact LV]. cbn beta. intros; lia. }
+    cbn [view apply_wrs fold_left] in Ls.
+    assert (EL : thief_tick (Lmem M ob [] o (TDecide d b)) (TDecide d b) = Some (ws, h', g)).
+    { cbn [thief_tick Lmem setlck ptr]. unfold invalidate.
+      change (wseq (Lmem M ob [] o (TDecide d b))) with (wseq (Lq M ob [])). rewrite Ep, Ls. exact E. }
+    pose proof (thief_core_step _ _ _ _ _ _ _ _ _ TC EL) as C'.
+    left. cbn [app].
+    destruct d; inversion E; subst; clear E; (split; [reflexivity|]);
+      (eapply T_holder_slot; [exact T| | | | |exact C'| |]; auto; try reflexivity; try (intros; discriminate));
       unfold invalidate; cbn [hshape]; repeat constructor.
-    + exists [], []. repeat split; auto.
-    + exists [WSeq (wseq M + 1); WCptr 0; WSeq (wseq M + 2)], []. rewrite app_nil_r. repeat split; auto.
-      repeat constructor.
+    exists [WSeq (wseq M + 1); WCptr 0; WSeq (wseq M + 2)], []. rewrite app_nil_r. repeat split; auto.
+    repeat constructor.
   - (* TRollback *)
     left. inversion E; subst; clear E.
     change (base (Lmem M ob hb o (TRollback m b))) with (base (Lq M ob hb)) in Tv. rewrite Lb in Tv.
